@@ -7,7 +7,7 @@ EXTENDS Naturals, Sequences, TLC, Json
 VARIABLES done
 Who == {"cli", "srv", "both", "none"}
 At == {0, 4, 9, 14, 19, 40, 120}          \* ms: lat 5 ms => handshake finishes around 15-20 ms
-Parked == {"none", "streams", "window", "both"}
+Parked == {"none", "streams", "window", "both", "dgram"}     \* "dgram": a datagram reader waits for a datagram that never comes
 Loss == {"none", "close_lost"}
 Idle == {<<600, 600>>, <<600, 1500>>, <<1500, 0>>, <<0, 900>>}   \* <<client, server>> max_idle_timeout in ms, 0 = not advertised
 Case(w, a, p, lo, idl) == [who |-> w, at |-> a, parked |-> p, loss |-> lo, idle_cli |-> idl[1], idle_srv |-> idl[2]]
